@@ -82,6 +82,15 @@ def match_flush(w, got, exp):
     return alg.and_(*conds) if conds else True
 
 
+def resync_wellformed(resync):
+    """exactly one 'G92 E', one 'G0 .. X Y' and at most one 'G0 .. Z' -- nothing replayed from earlier exits"""
+    cs = [rs274.read(c) for c in resync]
+    g92 = [c for c in cs if c.code == "G92"]
+    xy = [c for c in cs if c.code == "G0" and c.has("X") and c.has("Y")]
+    z = [c for c in cs if c.code == "G0" and c.has("Z") and not c.has("X")]
+    return len(g92) == 1 and len(xy) == 1 and len(z) <= 1 and len(cs) == len(g92) + len(xy) + len(z)
+
+
 def split_output(out, n_flush, exit_lines):
     """out = flush ++ exit script ++ resync"""
     flush = out[:n_flush]
@@ -185,7 +194,7 @@ def scen(w, D=2, scripts=1, full_modes=0):
         flush, script, resync = split_output(out, len(exp), exit_lines)
         w.check(match_flush(w, flush, exp), "deferred-codes-flushed-exactly-once-in-order", desc)
         w.check(script == exit_lines, "exit-script-once-after-flush-before-resync", desc)
-        ok_resync = len(resync) >= 1 and all(rs274.read(c).code in ("G92", "G0") for c in resync)
+        ok_resync = resync_wellformed(resync)
         w.check(ok_resync, "resync-commands-follow-scripts", desc)
         for line in enter_lines:
             w.check(line not in out, "enter-script-not-repeated", desc)
@@ -202,7 +211,7 @@ def scen(w, D=2, scripts=1, full_modes=0):
     flush2, script2, resync2 = split_output(rec.emitted, 0, exit_lines)
     leaked = [c for c in rec.emitted if rs274.read(c).code in modes]
     leaked = [c for c in leaked if c not in exit_lines]
-    w.check(not leaked and script2 == exit_lines, "nothing-leaks-into-later-episode",
+    w.check(not leaked and script2 == exit_lines and resync_wellformed(resync2), "nothing-leaks-into-later-episode",
             "%s ; second episode output %r" % (desc, rec.emitted))
 
 
